@@ -79,7 +79,11 @@ def lemma_field_layout(ev):
                   and isinstance(n.func.value, ast.Constant) and n.func.value.value == b"\n" for n in ast.walk(fdef))
     returns_join = any(isinstance(n, ast.Return) and isinstance(n.value, ast.Call) and isinstance(n.value.func, ast.Attribute)
                        and n.value.func.attr == "join" for n in ast.walk(fdef))
-    return z3.BoolVal(data_line and field_line and only_these and closes and lf_join and returns_join)
+    if not (data_line and field_line and only_these and closes and lf_join and returns_join):
+        # the shape test recognises one way of writing the builder; written differently it says nothing (undecided: the
+        # bounded EventSource reference parser decides)
+        raise Unsupported("build_bytes_from_sse is not written in the recognised shape (syntactic lemma not applicable)")
+    return z3.BoolVal(True)
 
 
 lemma_field_layout.note = ("AST shape: the only f-strings are '<x>: <y>' and 'data: <x>', the result is b'\\n'.join(...) and ends with two empty items "
